@@ -55,14 +55,6 @@ Proof.
   destruct Hx as [Hx|[Hx|[]]]; [apply I; exact Hx | subst; exact Ht].
 Qed.
 
-Lemma extend_self_rows_ok (rs rs' : rows) : extend_self_rows rs = Ok rs' -> rs' = rs.
-Proof.
-  intros H. destruct (extend_self_rows_spec rs) as [A B].
-  destruct (forallb (fun p => match snd p with [] => true | _ => false end) rs).
-  - rewrite A in H by reflexivity. inversion H. reflexivity.
-  - rewrite B in H by reflexivity. discriminate.
-Qed.
-
 Lemma fold_extend_wf T : forall (rss : list rows) (s : rows),
   Forall (fun rs => NoDup (keys rs) /\ incl (keys rs) T) rss -> NoDup (keys s) -> incl (keys s) T ->
   NoDup (keys (fold_left extend_matrix_rows rss s)) /\ incl (keys (fold_left extend_matrix_rows rss s)) T.
@@ -92,8 +84,7 @@ Section S.
 Variable lower : lbl -> lbl.
 Variable suffix : lbl -> Z -> lbl.
 Variable locus : Z -> lbl.
-Variable live : bool.
-Notation step := (step lower suffix locus live).
+Notation step := (step lower suffix locus).
 
 Lemma concatenate_wf taxa_of cms res :
   (forall n, NoDup (taxa_of n)) ->
@@ -222,22 +213,14 @@ Proof.
     rewrite update_rows_merge. apply (wf_binary w mm mo); eauto.
   - (* ExtendSeqs *)
     destruct (aget m (w_ms w)) as [mm|] eqn:G; [|exact W]. destruct (aget o (w_ms w)) as [mo|] eqn:Go; [|exact W].
-    destruct (Z.eqb m o && live).
-    + apply (lift_wf w m mm _ _ W G). intros mm' H. unfold extend_by_self in H.
-      destruct (extend_self_rows (m_rows mm)) as [rs| |] eqn:E; try discriminate. inversion H; subst.
-      apply extend_self_rows_ok in E. subst. split; [reflexivity|]. destruct mm; apply (W2 m _ G).
-    + apply (lift_wf w m mm _ _ W G). intros mm' H. unfold extend_sequences in H.
-      destruct (same_ns mm mo) eqn:E; cbn [negb] in H; [|discriminate]. inversion H; subst. split; [reflexivity|].
-      rewrite extend_rows_merge. apply (wf_binary w mm mo); eauto.
+    apply (lift_wf w m mm _ _ W G). intros mm' H. unfold extend_sequences in H.
+    destruct (same_ns mm mo) eqn:E; cbn [negb] in H; [|discriminate]. inversion H; subst. split; [reflexivity|].
+    rewrite extend_rows_merge. apply (wf_binary w mm mo); eauto.
   - (* ExtendMatrix *)
     destruct (aget m (w_ms w)) as [mm|] eqn:G; [|exact W]. destruct (aget o (w_ms w)) as [mo|] eqn:Go; [|exact W].
-    destruct (Z.eqb m o && live).
-    + apply (lift_wf w m mm _ _ W G). intros mm' H. unfold extend_by_self in H.
-      destruct (extend_self_rows (m_rows mm)) as [rs| |] eqn:E; try discriminate. inversion H; subst.
-      apply extend_self_rows_ok in E. subst. split; [reflexivity|]. destruct mm; apply (W2 m _ G).
-    + apply (lift_wf w m mm _ _ W G). intros mm' H. unfold extend_matrix in H.
-      destruct (same_ns mm mo) eqn:E; cbn [negb] in H; [|discriminate]. inversion H; subst. split; [reflexivity|].
-      rewrite extend_matrix_rows_merge. apply (wf_binary w mm mo); eauto.
+    apply (lift_wf w m mm _ _ W G). intros mm' H. unfold extend_matrix in H.
+    destruct (same_ns mm mo) eqn:E; cbn [negb] in H; [|discriminate]. inversion H; subst. split; [reflexivity|].
+    rewrite extend_matrix_rows_merge. apply (wf_binary w mm mo); eauto.
   - (* RemoveSeqs *)
     destruct (aget m (w_ms w)) as [mm|] eqn:G; [|exact W]. destruct (W2 m mm G) as [A B].
     destruct (remove_rows (m_rows mm) ts) as [rs e] eqn:R. cbn [fst].
@@ -280,7 +263,7 @@ Proof.
     destruct (has_key lower l (m_subs mm)); [discriminate|]. inversion H; subst. split; [reflexivity|]. apply (W2 m mm G).
 Qed.
 
-Theorem run_world_wf ops : forall w, wf_world w -> wf_world (run_world lower suffix locus live w ops).
+Theorem run_world_wf ops : forall w, wf_world w -> wf_world (run_world lower suffix locus w ops).
 Proof.
   unfold run_world. induction ops as [|o ops IH]; intros w W; simpl; [exact W|]. apply IH. apply step_wf. exact W.
 Qed.
@@ -316,8 +299,8 @@ Proof.
     (destruct (aget m (w_ms w)) as [mm|]; [|split; [exact G | reflexivity]]);
     try (destruct (aget o (w_ms w)) as [mo|]; [|split; [exact G | reflexivity]]);
     try (apply lift_new_frame; exact G);
-    try (apply lift_frame; assumption);
-    try (destruct (Z.eqb m o && live); apply lift_frame; assumption).
+    try (apply lift_frame; assumption).
+
   - destruct (fill _ mm v size append). apply upd_frame; assumption.
   - apply upd_frame; assumption.
   - destruct (pack _ mm v size append). apply upd_frame; assumption.
@@ -338,10 +321,10 @@ Proof.
   assert (NE : Z.eqb m other = false).
   { apply Z.eqb_neq. intro E. subst. rewrite G in Go. inversion Go. subst. apply N. reflexivity. }
   destruct (foreign_namespace_refused_l mm mo N) as [A [B [C [D E]]]].
-  destruct H as [H|[H|[H|[[b H]|H]]]]; subst o; cbn [C19Model.step]; unfold with2; rewrite G, Go, ?NE; cbn [andb]; rewrite ?A, ?B, ?C, ?D, ?E; reflexivity.
+  destruct H as [H|[H|[H|[[b H]|H]]]]; subst o; cbn [C19Model.step]; unfold with2; rewrite G, Go, ?A, ?B, ?C, ?D, ?E; reflexivity.
 Qed.
 
-(* ---- termination: the model reports Hang only for a matrix extended by itself ---- *)
+(* ---- termination: the model never reports Hang ---- *)
 Lemma concat_loop_err T ns0 nseqs : forall cms cidx acc pos e,
   concat_loop lower suffix locus T ns0 nseqs cms cidx acc pos = Err e -> e <> Hang.
 Proof.
@@ -360,34 +343,6 @@ Proof.
   - discriminate.
 Qed.
 
-Lemma forallb_false_ex {A} (f : A -> bool) (l : list A) : forallb f l = false -> exists x, In x l /\ f x = false.
-Proof.
-  induction l as [|x l IH]; simpl; intros H; [discriminate|].
-  destruct (f x) eqn:E.
-  - destruct (IH H) as [y [Hy Ey]]. exists y. split; [right; exact Hy | exact Ey].
-  - exists x. split; [left; reflexivity | exact E].
-Qed.
-
-Definition has_nonempty_row (m : matrix) : Prop := exists t r, In (t, r) (m_rows m) /\ r <> [].
-
-Lemma extend_by_self_hang m : extend_by_self m = OutOfFuel <-> has_nonempty_row m.
-Proof.
-  unfold extend_by_self, has_nonempty_row. destruct (extend_self_rows_spec (m_rows m)) as [A B].
-  destruct (forallb (fun p => match snd p with [] => true | _ => false end) (m_rows m)) eqn:F.
-  - rewrite A by reflexivity. split; [discriminate|]. intros [t [r [Hin Hr]]].
-    rewrite forallb_forall in F. specialize (F (t, r) Hin). simpl in F. destruct r; [congruence | discriminate].
-  - rewrite B by reflexivity. split; [|reflexivity]. intros _.
-    destruct (forallb_false_ex _ _ F) as [[t r] [Hin E]]. exists t, r. split; [exact Hin|]. simpl in E. destruct r; [discriminate | discriminate].
-Qed.
-
-Lemma extend_by_self_err m e : extend_by_self m <> Err e.
-Proof.
-  unfold extend_by_self. destruct (extend_self_rows_spec (m_rows m)) as [A B].
-  destruct (forallb (fun p => match snd p with [] => true | _ => false end) (m_rows m)).
-  - rewrite A by reflexivity. discriminate.
-  - rewrite B by reflexivity. discriminate.
-Qed.
-
 Lemma lift_hang w m r o : o <> OErr Hang -> snd (lift w m r o) = OErr Hang -> r = OutOfFuel \/ r = Err Hang.
 Proof. unfold lift. destruct r as [x|e|]; simpl; intros N H; [contradiction | right; inversion H; reflexivity | left; reflexivity]. Qed.
 
@@ -402,12 +357,9 @@ Proof.
   destruct cms as [|c0 rest]; [discriminate|]. unfold concatenate. intro H. apply concat_loop_err in H. congruence.
 Qed.
 
-Theorem step_hang_only_self_extend w o :
+Theorem step_terminates w o :
   (forall l i j, lower (suffix l i) = lower (suffix l j) -> i = j) ->
-  snd (step w o) = OErr Hang ->
-  live = true /\
-  exists m mm, aget m (w_ms w) = Some mm /\ has_nonempty_row mm /\
-               ((exists b, o = ExtendSeqs m m b) \/ o = ExtendMatrix m m).
+  snd (step w o) <> OErr Hang.
 Proof.
   intros Inj H.
   destruct o; cbn [C19Model.step] in H; unfold with1, with2, bad_id in H.
@@ -427,20 +379,10 @@ Proof.
     apply lift_hang in H; [|discriminate]. unfold replace_sequences in H. destruct (negb (same_ns mm mo)); destruct H; discriminate.
   - destruct (aget m (w_ms w)) as [mm|]; [|discriminate]. destruct (aget o (w_ms w)) as [mo|]; [|discriminate].
     apply lift_hang in H; [|discriminate]. unfold update_sequences in H. destruct (negb (same_ns mm mo)); destruct H; discriminate.
-  - destruct (aget m (w_ms w)) as [mm|] eqn:G; [|discriminate]. destruct (aget o (w_ms w)) as [mo|]; [|discriminate].
-    destruct (Z.eqb_spec m o) as [E|E]; [destruct live|]; cbn [andb] in H.
-    + subst o. apply lift_hang in H; [|discriminate]. destruct H as [H|H]; [|exfalso; exact (extend_by_self_err _ _ H)].
-      split; [reflexivity|].
-      exists m, mm. split; [exact G|]. split; [apply extend_by_self_hang; exact H|]. left. exists addnew. reflexivity.
-    + apply lift_hang in H; [|discriminate]. unfold extend_sequences in H. destruct (negb (same_ns mm mo)); destruct H; discriminate.
-    + apply lift_hang in H; [|discriminate]. unfold extend_sequences in H. destruct (negb (same_ns mm mo)); destruct H; discriminate.
-  - destruct (aget m (w_ms w)) as [mm|] eqn:G; [|discriminate]. destruct (aget o (w_ms w)) as [mo|]; [|discriminate].
-    destruct (Z.eqb_spec m o) as [E|E]; [destruct live|]; cbn [andb] in H.
-    + subst o. apply lift_hang in H; [|discriminate]. destruct H as [H|H]; [|exfalso; exact (extend_by_self_err _ _ H)].
-      split; [reflexivity|].
-      exists m, mm. split; [exact G|]. split; [apply extend_by_self_hang; exact H|]. right. reflexivity.
-    + apply lift_hang in H; [|discriminate]. unfold extend_matrix in H. destruct (negb (same_ns mm mo)); destruct H; discriminate.
-    + apply lift_hang in H; [|discriminate]. unfold extend_matrix in H. destruct (negb (same_ns mm mo)); destruct H; discriminate.
+  - destruct (aget m (w_ms w)) as [mm|]; [|discriminate]. destruct (aget o (w_ms w)) as [mo|]; [|discriminate].
+    apply lift_hang in H; [|discriminate]. unfold extend_sequences in H. destruct (negb (same_ns mm mo)); destruct H; discriminate.
+  - destruct (aget m (w_ms w)) as [mm|]; [|discriminate]. destruct (aget o (w_ms w)) as [mo|]; [|discriminate].
+    apply lift_hang in H; [|discriminate]. unfold extend_matrix in H. destruct (negb (same_ns mm mo)); destruct H; discriminate.
   - destruct (aget m (w_ms w)) as [mm|]; [|discriminate].
     destruct (remove_rows (m_rows mm) ts) as [rs e] eqn:R. cbn [snd] in H.
     destruct e as [e|]; [|discriminate]. assert (X := remove_rows_err (m_rows mm) ts e). rewrite R in X.
@@ -466,10 +408,3 @@ Qed.
 
 End S.
 
-(* in the repaired form nothing hangs *)
-Theorem step_terminates_repaired lower suffix locus w o :
-  (forall l i j, lower (suffix l i) = lower (suffix l j) -> i = j) ->
-  snd (step lower suffix locus false w o) <> OErr Hang.
-Proof.
-  intros Inj H. destruct (step_hang_only_self_extend lower suffix locus false w o Inj H) as [X _]. discriminate.
-Qed.
